@@ -6,7 +6,7 @@ META = {
     'technique': 'Lean 4 refinement proof (simulation relation, induction over all call histories) of a hand model of fibre.c against an abstract scheduler specification written from the property text; '
                  'model and specification both tied to the real fibre.c+list.c+messageq.c by differential runs on generated histories',
     'level_text': "For every history of fibre_run / fibre_run_atomic / fibre_kill / fibre_scheduler_next(t) of any length, over any number of fibres whose bodies perform any calls and return any of yielded/waiting/exited/failed, inside the quantifier's scope, the concrete model of fibre.c produces exactly the outputs of the abstract FIFO-of-reasons specification: dispatched fibre or idle per pass (= head of the run queue after intake of atomic requests in arrival order, previous yielder, expired timeouts), priv at entry (0 after exit/fail), every boolean returned, fibre_self, returned wake-up time (sched_refines_spec, by a simulation relation and induction). Corollaries for every reachable state: queue invariant (no duplicates, queues disjoint, timer queue cyclically sorted), dispatch only with a reason / idle only without, coalescing, returned fibre in no queue, kill_exact, and C09's precondition at every list insertion.",
-    'level_note': "Trusted: Lean kernel (standard axioms only in the C01 theorems; one bv_decide certificate in get_next_task_generated of Props/C01Tie.lean); tie T2 for get_next_task (regenerated from fibre.c, list_extract external: the fibre dispatched is the head of the run queue of the model, or none); the hand model lean/Librfn/Model/Fibre.lean of fibre.c and the abstract specification are BOTH run against the real fibre.c+list.c+messageq.c+util.c on every check (sampled histories, exhaustive small scope in the thorough tier) - that correspondence is testing, not proof; cyclecmp32 is regenerated from util.c (tie T); list.c is replaced by sequences (its refinement is C09; every insertion is proved to be of a node in no list); the atomic run queue is its list of committed entries, fibre_run_atomic runs to completion (the lock-free protocol is C04/C06); scope = the property's quantifier: <= 1 unsatisfied fibre_timeout per dispatch, non-decreasing true times, every pending due time within 2^31 ticks of the pass time (the 9th outstanding atomic request is refused by model and specification alike, so no clause is needed).",
+    'level_note': "Trusted: Lean kernel (standard axioms only in the C01 theorems; bv_decide certificates in the *_generated lemmas of Props/C01Tie.lean); tie T2 for get_next_task (regenerated from fibre.c, list_extract external: the fibre dispatched is the head of the run queue of the model, or none) and make_runnable (the list functions external: the calls made are those makeRunnable of the model stands for, no second insertion of a runnable fibre); the hand model lean/Librfn/Model/Fibre.lean of fibre.c and the abstract specification are BOTH run against the real fibre.c+list.c+messageq.c+util.c on every check (sampled histories, exhaustive small scope in the thorough tier) - that correspondence is testing, not proof; cyclecmp32 is regenerated from util.c (tie T); list.c is replaced by sequences (its refinement is C09; every insertion is proved to be of a node in no list); the atomic run queue is its list of committed entries, fibre_run_atomic runs to completion (the lock-free protocol is C04/C06); scope = the property's quantifier: <= 1 unsatisfied fibre_timeout per dispatch, non-decreasing true times, every pending due time within 2^31 ticks of the pass time (the 9th outstanding atomic request is refused by model and specification alike, so no clause is needed).",
     'design_ref': '§6 C01',
 }
 REQUIRED = ['Librfn.C01.sched_refines_spec', 'Librfn.C01.reachable_sim', 'Librfn.C01.sched_inv', 'Librfn.C01.atomq_bounded', 'Librfn.C01.dispatch_is_fifo_head', 'Librfn.C01.dispatched_exactly_when_runnable', 'Librfn.C01.idle_only_when_nothing_runnable', 'Librfn.C01.run_joins_tail', 'Librfn.C01.run_idempotent', 'Librfn.C01.queued_at_most_once', 'Librfn.C01.returned_fibre_not_queued', 'Librfn.C01.exit_resets_priv', 'Librfn.C01.entry_priv_is_spec_priv', 'Librfn.C01.kill_exact', 'Librfn.C01.make_runnable_inserts_free_node', 'Librfn.C01.handle_timerq_inserts_free_node', 'Librfn.C01.script_inserts_free_nodes', 'Librfn.C01.sched_list_preconditions']
@@ -20,14 +20,14 @@ def run(ctx):
     for u, e in regen.regen(['FibreSeq']):
         ctx.broken.append(f'tie T: tools/c2lean2.py cannot translate unit {u}: {e}')
     mods, req = ['Librfn.Props.C01'], list(REQUIRED)
-    changed = regen.signature_changes('FibreSeq', only=['get_next_task'])
+    changed = regen.signature_changes('FibreSeq', only=['get_next_task', 'make_runnable'])
     if changed:
         ctx.broken.append('tie T: the interface of the regenerated get_next_task differs from the one Props/C01Tie.lean is stated against (' + '; '.join(changed)[:600] + ')')
     else:
-        mods, req = mods + ['Librfn.Props.C01Tie'], req + ['Librfn.C01.Tie.get_next_task_generated', 'Librfn.C01.Tie.get_next_task_tie']
-    allow = lambda t, a: t.startswith('Librfn.C01.Tie.') and a.startswith('Librfn.C01.Tie.get_next_task_generated._native.bv_decide.ax_')
+        mods, req = mods + ['Librfn.Props.C01Tie'], req + ['Librfn.C01.Tie.get_next_task_generated', 'Librfn.C01.Tie.get_next_task_tie', 'Librfn.C01.Tie.make_runnable_generated', 'Librfn.C01.Tie.make_runnable_tie']
+    allow = lambda t, a: t.startswith('Librfn.C01.Tie.') and (a.startswith('Librfn.C01.Tie.get_next_task_generated._native.bv_decide.ax_') or a.startswith('Librfn.C01.Tie.make_runnable_generated._native.bv_decide.ax_'))
     sc.run_sched(ctx, META, mods, req, 'C01', allow_extra_axioms=allow)
-    ctx.cov['tie_T_generated_units'] = {'FibreSeq': ['get_next_task (list_extract external)']}
+    ctx.cov['tie_T_generated_units'] = {'FibreSeq': ['get_next_task (list_extract external)', 'make_runnable (list_contains, list_remove, list_insert external)']}
 
 
 def replay(ctx, path):
